@@ -36,13 +36,16 @@ correspondence      L-ev projected on diagnostics (severity, label spans, order)
 inventory           every run REGENERATES coq/Gen/DiagSites.v from the non-test code of /repo/src/{parser,analysis,
                     lexer}/*.rs, metadata.rs, lib.rs and error.rs (gen/gen_diags.py): every place where a diagnostic
                     is made or pushed, as (stage, file, fn, how, severity of the macro, push methods, ordinal in the
-                    fn, message) without line numbers.  The entries WITHOUT their message are pinned by the obligation
-                    C07_diag_inventory and mapped to the constructors of the models by Model/DiagMap.v (severities,
-                    coverage: C07_diag_*).  A diagnostic that is added, dropped, moved, or whose severity / push
-                    method changes breaks the obligations (the build of Properties/C07.vo fails) and is reported
-                    entry by entry with the messages; moving code and rewording a message do not.  The severity and
-                    stage the catalogue expects of each construct are held against the PINNED table
-                    (cat.inventory_cross_check over the rows of Model/DiagMap.v), never against the tree being judged."""
+                    fn, constructor of the models, message) without line numbers; the constructor is named from the
+                    dictionary of Model/DiagMap.v (key and message, else message, else key, else position).  PINNED
+                    (C07_diag_inventory) is, per (stage, file), the set of (severity, constructor); proved about the
+                    regenerated sites: each agrees in stage and severity with its constructor in the models and
+                    with the push method, every constructor has a site (C07_diag_*).  A diagnostic nobody can name
+                    (a new one), a constructor that loses its last site in a file, a changed severity break the
+                    obligations (the build of Properties/C07.vo fails) and are reported with the sites and their
+                    messages; moving, reordering, regrouping, rewording, building or pushing another way do not.
+                    The severity and stage the catalogue expects of each construct are held against the PINNED
+                    rows (cat.inventory_cross_check), never against the tree being judged."""
 import json
 import os
 import random
@@ -365,27 +368,30 @@ def replay_of(c, extra=None):
 def inventory():
     """regenerate Gen/DiagSites.v; -> (stats for the evidence, what is wrong: list of (what, replay dict))"""
     inv = gen_diags.regenerate()
-    expected = gen_diags.expected_sites()
-    new, gone = gen_diags.diff(inv["items"], expected)
-    held, cat_bad = cat.inventory_cross_check(gen_diags.pinned_table())
-    st = {"sites": len(inv["items"]), "expected": None if expected is None else len(expected),
-          "file_rewritten": inv["changed"], "new": new, "gone": gone,
-          "by_stage": {k: sum(1 for it in inv["items"] if it["stage"] == k) for k in ("Parse", "Analysis", "AnyStage")},
-          "by_how": {k: sum(1 for it in inv["items"] if it["how"] == k) for k in sorted(set(it["how"] for it in inv["items"]))},
-          "catalogue_entries_held_against_pinned_list": held, "catalogue_disagreements": cat_bad,
-          "samples": ["%s:%d %s" % (it["path"], it["line"], gen_diags.show_key(gen_diags.key_of(it), it["msg"])[:200])
-                      for it in inv["items"][8:9] + inv["items"][40:41] + inv["items"][-1:]]}
+    items = inv["items"]
+    expected = gen_diags.expected_summary()
+    lines, unknown = gen_diags.summary_diff(items, expected)
+    held, cat_bad = cat.inventory_cross_check(expected)
+    st = {"sites": len(items), "pinned_rows": None if expected is None else len(expected),
+          "rows": len(gen_diags.summary_of(items)), "file_rewritten": inv["changed"], "differences": lines, "unnamed_sites": unknown,
+          "by_stage": {k: sum(1 for it in items if it["stage"] == k) for k in ("Parse", "Analysis", "AnyStage")},
+          "by_how": {k: sum(1 for it in items if it["how"] == k) for k in sorted(set(it["how"] for it in items))},
+          "constructor_named_by": {k: sum(1 for it in items if it["via"] == k) for k in sorted(set(it["via"] for it in items))},
+          "catalogue_entries_held_against_pinned_rows": held, "catalogue_disagreements": cat_bad,
+          "samples": ["%s:%d %s -> %s" % (it["path"], it["line"], gen_diags.show_key(gen_diags.key_of(it), it["msg"])[:200], it["ctor"])
+                      for it in items[8:9] + items[40:41] + items[-1:]]}
     bad = []
     if expected is None:
         bad.append(("Properties/C07.v has no theorem C07_diag_inventory", {}))
-    elif new or gone:
-        what = ("the diagnostics made by the code (%s) are not those listed by C07_diag_inventory:\n    %s"
-                % (common.REPO, "\n    ".join(gone + new)))
-        bad.append((what, {"new": new, "gone": gone,
+    elif lines or unknown:
+        what = ("the diagnostics made by the code (%s) are not those pinned by C07_diag_inventory (per stage and file: "
+                "the set of (severity, constructor of the models)):\n    %s" % (
+                    common.REPO, "\n    ".join(lines + ["no constructor of the models could be named for: " + u for u in unknown])))
+        bad.append((what, {"differences": lines, "unnamed_sites": unknown,
                            "unchecked": "which constructor of the models stands for each diagnostic of the code, and "
                                         "its severity (Model/DiagMap.v) <-> src/parser, src/analysis, src/error.rs"}))
     if cat_bad:
-        bad.append(("the catalogue of checks/c07_catalog.py and the list of C07_diag_inventory disagree:\n    %s"
+        bad.append(("the catalogue of checks/c07_catalog.py and the rows of C07_diag_inventory disagree:\n    %s"
                     % "\n    ".join(cat_bad), {"catalogue_disagreements": cat_bad}))
     for what, _ in bad:
         common.log("  " + what)
@@ -636,8 +642,8 @@ def replay(rp):
         # a broken obligation / a changed inventory without a failing input: regenerate, rebuild the obligations
         st, bad = inventory()
         audit = common.audit_property_file(PID)
-        print("diagnostic inventory: %d sites (pinned: %s)" % (st["sites"], st["expected"]))
-        for l in st["gone"] + st["new"] + st["catalogue_disagreements"]:
+        print("diagnostic inventory: %d sites in %d rows (pinned rows: %s)" % (st["sites"], st["rows"], st["pinned_rows"]))
+        for l in st["differences"] + st["unnamed_sites"] + st["catalogue_disagreements"]:
             print("  " + l)
         print("obligations: %d/%d %s" % (audit["discharged"], audit["obligations"], "; ".join(audit["failed"])))
         return 0 if audit["ok"] and not bad else 1
